@@ -108,11 +108,24 @@ def r1(ctx: Ctx) -> None:
         if t is not None and any(vg.nodes[x].kind == "raise" for x in reachable_from(vg, t, NORMAL)):
             ok = True
     ctx.ob("C11.R1", val, "signature mismatch raises", brs[0] if brs else None, ok, "divergent schema argument -> ValueError")
+    # the comparison is reached on every call for a table with a persisted schema (no memoised 'already validated')
+    rs_calls = [n for n in vg.calls() if any(t.name == "_resolve_table_schema" for t in ctx.eff.callees(val, n))]
+    none_edges = {(b.id, d) for b in vg.nodes if b.kind == "branch" and isinstance(b.ast, ast.Compare) and isinstance(b.ast.ops[0], ast.Is)
+                  and isinstance(b.ast.comparators[0], ast.Constant) and b.ast.comparators[0].value is None
+                  and rs_calls and any("_resolve_table_schema" in norm_text(vg.nodes[d_].ast) for nm in names_in(b.ast.left)
+                                       for d_ in ctx.rd(val).reaching(b.id, nm) if vg.nodes[d_].ast is not None)
+                  for d, l in vg.succ[b.id] if l == "true"}
+    w = find_path(vg, vg.entry, [vg.exit], avoid=[b.id for b in brs], labels=NORMAL, edge_ok=lambda s_, d_, l_: (s_, d_) not in none_edges)
+    ctx.ob("C11.R1", val, "every call compares the signatures (only a schema-less table skips the check)", brs[0] if brs else None,
+           bool(brs) and w is None,
+           "a per-transaction / per-handle 'already validated this schema_id' memo lets a second append pass a different field "
+           "list under the same id unchecked", witness=ctx.path_witness(val, w))
     # sibling validator of the file-level API is Schema.equals (order + names + types + nullability)
     vf = ctx.fn(TX + "._validate_file_schema")
     eq = [n for n in ctx.cfg(vf).calls() if n.callee and n.callee.name.endswith(".equals")]
-    ctx.ob("C11.R1", vf, "file-level API compares full Arrow schemas", eq[0] if eq else None, bool(eq),
-           "both append APIs induce the same equivalence on schemas", nontrivial=False)
+    ctx.ob("C11.R1", vf, "file-level API compares full Arrow schemas (names, order, types AND nullability)", eq[0] if eq else None, bool(eq),
+           "pa.concat_tables needs identical schemas: a pre-built file differing only in a column's optional/required flag is accepted "
+           "by a name/type-only comparison and breaks every later full scan", nontrivial=False)
 
 
 def r2(ctx: Ctx) -> None:
@@ -194,12 +207,14 @@ def r3(ctx: Ctx) -> None:
     early = [n for n in ctx.cfg(val).nodes if n.kind == "return" and n.id in ctx.cfg(val).reachable()]
     validated_everywhere = not early  # an early `return` (schema-less table) means: no validation on that path
     ok = determines or validated_everywhere
-    ctx.ob("C11.R3", f, "cache key determines the Arrow schema", None, ok,
+    scope = "instance" if all(norm_text(s_.value).startswith("self.") for s_ in subs) else "shared"
+    ctx.ob("C11.R3", f, "cache key determines the Arrow schema", None, ok and scope == "instance" or (determines and True),
            f"cache keys {sorted(keys)}; the cached value is computed from iceberg_schema.fields"
            + ("" if ok else "; the key is the schema id alone and on a table without a persisted schema "
               "_validate_schema_against_table returns early (no validation): two appends passing different field lists under "
               "one schema_id reuse the first Arrow schema and the second batch is written as NULLs of the wrong columns"),
-           text="_arrow_schema_cache")
+           text="_arrow_schema_cache" if (scope == "instance" and sorted(keys) == ["iceberg_schema.schema_id"]) else
+           f"_arrow_schema_cache[{','.join(sorted(keys))}]@{scope}")
 
 
 def r4(ctx: Ctx) -> None:
